@@ -41,7 +41,21 @@ func GetJsonDataType(t dsl.Type) JsonDataType {
 	}
 
 	if len(gt.Cases) > 1 {
-		panic("unexpected union type")
+		// An optional or union that is a case of another union (through an alias): it is written like any other
+		// optional or union, i.e. as one of its cases when their JSON types are distinct, as a tagged object otherwise.
+		var all JsonDataType
+		distinct := true
+		for _, c := range gt.Cases {
+			caseType := GetJsonDataType(c.Type)
+			if caseType&all != 0 {
+				distinct = false
+			}
+			all |= caseType
+		}
+		if distinct {
+			return all
+		}
+		return JsonObject
 	}
 
 	scalarType := gt.Cases[0].Type.(*dsl.SimpleType)
